@@ -25,6 +25,8 @@ type SpecEnv struct {
 	held        map[string]bool // mutexes held at the evaluation point (nil: assume context)
 	qvars       map[string]bool // SMT names of quantifier variables in scope
 	pats        []Term          // candidate triggers: (select a v) with v a quantifier variable
+	qfacts      []Term          // integer-range facts of heap loads that mention a bound variable (see field, quant)
+	qdecls      []string        // declarations of the quantifier variables bound since the outermost quantifier
 	errs        []string
 }
 
@@ -206,9 +208,31 @@ func (env *SpecEnv) quant(x *Quant) *Val {
 	env.qvars[q(vname)] = true
 	savedPats := env.pats
 	env.pats = nil
+	savedFacts := env.qfacts
+	if len(env.qvars) == 1 {
+		env.qfacts = nil
+	}
 	body := vc.term(env.eval(x.Body))
 	pats := env.pats
 	env.pats = savedPats
+	// type facts of heap-held integers read under the quantifier (they mention bound variables, so
+	// they cannot be asserted as ground facts): the outermost quantifier states them as one
+	// universally quantified heap-typing axiom over all variables bound inside it
+	env.qdecls = append(env.qdecls, fmt.Sprintf("(%s %s)", q(vname), sortS))
+	if len(env.qvars) == 1 {
+		if len(env.qfacts) > 0 {
+			seenFact := map[Term]bool{}
+			var fs []Term
+			for _, f := range env.qfacts {
+				if !seenFact[f] {
+					seenFact[f] = true
+					fs = append(fs, f)
+				}
+			}
+			vc.S.Assert(fmt.Sprintf("(forall (%s) %s)", strings.Join(env.qdecls, " "), and(fs...)))
+		}
+		env.qfacts, env.qdecls = savedFacts, nil
+	}
 	delete(env.qvars, q(vname))
 	if had {
 		env.bound[x.Var] = saved
@@ -503,6 +527,14 @@ func (env *SpecEnv) field(v *Val, idx int) *Val {
 		if r.Typ != nil && r.T != "" && !env.mentionsQvar(r.T) {
 			if rf := vc.rangeFact(r.T, r.Typ, 0); rf != "true" && len(rf) < 4000 {
 				vc.S.Assert(rf)
+			}
+		} else if r.Typ != nil && r.T != "" {
+			// under a quantifier the integer range of the loaded value becomes a hypothesis of the
+			// innermost enclosing quantifier (see quant)
+			if _, _, isInt := intRange(r.Typ); isInt {
+				if rf := vc.rangeFact(r.T, r.Typ, 0); rf != "true" && len(rf) < 6000 {
+					env.qfacts = append(env.qfacts, rf)
+				}
 			}
 		}
 		return r
